@@ -272,7 +272,9 @@ def harness_dir():
         shutil.rmtree(dst)
     shutil.copytree(HARNESS, dst, ignore=shutil.ignore_patterns("target", "Cargo.lock"))
     ct = os.path.join(dst, "Cargo.toml")
-    open(ct, "w").write(open(ct).read().replace('"/repo/', '"' + REPO.rstrip("/") + "/"))
+    text = open(ct).read().replace('"/repo/', '"' + REPO.rstrip("/") + "/")
+    with open(ct, "w") as f:
+        f.write(text)
     return dst
 
 
